@@ -112,6 +112,10 @@ def gen_decode(rng, i):
             d['rep1'] = sub
             d['rep2'] = {'inner': clone(sub), 'again': [clone(sub)]}
         docs.append(d)
+    if i % 40 == 3 and isinstance(docs[-1], dict):
+        # one physical line longer than 64 KiB (a long string; in flow style the whole document is one line)
+        docs[-1]['long'] = 'x' * rng.choice([65530, 65536, 70000, 131080])
+        docs[-1]['after_long'] = {'still': 'here'}
     return {'kind': 'decode', 'docs': docs, 'labels': ['kind:decode']}
 
 
